@@ -12,7 +12,7 @@ def c10(ctx: Ctx):
     ctx.assumptions = [
         "TLC; spec/RobustTraffic.tla spans 37 named legal-but-unusual document features x 55 request and 16 response mutations x MultiError; spec/RobustShapes.tla spans the structured product leaf schema (53) x wrap (18) x site (58) x value (59) x document modifier (40) x option set (17) x named feature x traffic mutations in five parts (183), emitted as strength-2 orthogonal arrays (every pair of atoms of every two dimensions), one array per mutation mode; the oracle is the outcome alphabet",
         "'any bytes' is sampled, structured by the spec (pairwise over the structured dimensions), not exhausted; documents the library's own Validate rejects are outside the premise (counted, not judged)",
-        "harness/c10.go + c10s.go build and load each document, construct both routers, and run FindRoute (both), ValidateRequest (route of either router), ConvertErrors, the default error encoder, ValidateResponse, the reading of every returned error, the strict and lenient middleware and a second pass on the same document, each call's panic recovered separately; 8 s watchdog; 256 MB maximal stack; process death recorded by the runner; errors are read on traffic nested at most 500 deep",
+        "harness/c10.go + c10s.go build and load each document, construct both routers, and run FindRoute (both), ValidateRequest (route of either router), ConvertErrors, the default error encoder, ValidateResponse, the reading of every returned error, the strict and lenient middleware and a second pass on the same document, each call's panic recovered separately; 20 s watchdog; 256 MB maximal stack; process death recorded by the runner; errors are read and the repeated passes made on traffic nested at most 500 deep",
     ]
     cases = os.path.join(ctx.scratch, "cases.ndjson")
     if ctx.replay:
